@@ -207,9 +207,11 @@ def parseDigits (acc : Nat) : List Nat → Nat
     an empty digit sequence converts to 0 -/
 def strtoMag (s : List Nat) : Bool × Nat :=
   match skipSpace s with
-  | 45 :: cs => (true, parseDigits 0 cs)
-  | 43 :: cs => (false, parseDigits 0 cs)
-  | cs => (false, parseDigits 0 cs)
+  | [] => (false, 0)
+  | c :: cs =>
+    if c = 45 then (true, parseDigits 0 cs)            -- '-'
+    else if c = 43 then (false, parseDigits 0 cs)      -- '+'
+    else (false, parseDigits 0 (c :: cs))
 
 /-- `strtoll(s, 0, 10)`: the value, clamped to `LLONG_MIN`/`LLONG_MAX` -/
 def strtoll (s : List Nat) : Int :=
